@@ -142,6 +142,8 @@ def _air_transmit(air: ast.ClassDef):
                 raise ValueError(f"AirSpace.transmit: unexpected receiver filter {test}")
             if [_u(x) for x in s.body[0].body] != ["wireless_interface.receive_frame(frame)"]:
                 raise ValueError("AirSpace.transmit: unexpected delivery statement")
+            if _u(s.iter) != "self.wireless_interfaces_by_frequency.get(sender_network_interface.frequency.frequency_hz, [])":
+                raise ValueError(f"AirSpace.transmit: receivers are not the interfaces on the sender's hz: {_u(s.iter)}")
             steps.append("deliver")
         else:
             raise ValueError(f"AirSpace.transmit: unrecognised statement {_u(s)}")
@@ -222,9 +224,27 @@ def emit() -> str:
         raise ValueError("Network.pre_timestep does not reset the airspace and every link")
     # endpoint_down
     ed = _body(find_method(link, "endpoint_down"))
-    if not (len(ed) == 1 and isinstance(ed[0], ast.If) and _u(ed[0].test) == "not self.is_up"
-            and "self.current_load = 0.0" in [_u(x) for x in ed[0].body]):
+    if not (len(ed) == 1 and isinstance(ed[0], ast.If) and _u(ed[0].test) == "not self.is_up" and not ed[0].orelse):
         raise ValueError("Link.endpoint_down: unexpected shape")
+    ed_inner = [x for x in ed[0].body if not (isinstance(x, ast.Expr) and _u(x).startswith("_LOGGER."))]
+    if not ed_inner:
+        disable_clears = False       # F-40 repaired: the load is kept until pre_timestep
+    elif [_u(x) for x in ed_inner] == ["self.current_load = 0.0"]:
+        disable_clears = True        # the code before the repair: named, so that the obligation fails visibly
+    else:
+        raise ValueError(f"Link.endpoint_down: unrecognised statements {[_u(x) for x in ed_inner]}")
+    # nothing but transmit_frame (+=, -=), pre_timestep (= 0.0) and, before the repair, endpoint_down writes current_load
+    writers = set()
+    for fn in link.body:
+        if isinstance(fn, ast.FunctionDef):
+            for node in ast.walk(fn):
+                tgt = node.target if isinstance(node, (ast.AugAssign, ast.AnnAssign)) else None
+                tgts = node.targets if isinstance(node, ast.Assign) else ([tgt] if tgt is not None else [])
+                if any(_u(t) == "self.current_load" for t in tgts):
+                    writers.add(fn.name)
+    allowed = {"transmit_frame", "pre_timestep"} | ({"endpoint_down"} if disable_clears else set())
+    if writers != allowed:
+        raise ValueError(f"Link: current_load is written by {sorted(writers)}, expected {sorted(allowed)}")
     # disable() calls endpoint_down after clearing the flag; enable()/disable() are no-ops when already in that state
     wni = class_def(base, "WiredNetworkInterface")
     dis = [_u(s) for s in _body(find_method(wni, "disable"))]
@@ -256,8 +276,13 @@ def switchSendOrder : List String := {lst(sw)}
 def wirelessSendOrder : List String := {lst(wl)}
 /-- `Link.pre_timestep` sets `current_load = 0.0`; `Network.pre_timestep` calls it for every link and clears the airspace loads -/
 def tickResetsEveryLoad : Bool := true
-/-- `WiredNetworkInterface.disable` clears the flag, then `Link.endpoint_down`: `if not self.is_up: self.current_load = 0.0` -/
-def disableClearsLoad : Bool := true
+/-- `WiredNetworkInterface.disable` clears the flag, then calls `Link.endpoint_down`; does that assign `current_load = 0.0`?
+(no other method than `transmit_frame` and `pre_timestep` writes `current_load`: enforced by the extractor) -/
+def disableClearsLoad : Bool := {"true" if disable_clears else "false"}
+/-- `AirSpace`: `bandwidth_load` and the receiver lists are keyed by `frequency.frequency_hz`; the capacity of the admission
+test is `get_frequency_max_capacity_mbps(sender.frequency.name)` (both shapes are enforced by the extractor) -/
+def airLoadKey : String := "frequency_hz"
+def airCapacityKey : String := "name"
 /-- NIC / RouterInterface / SwitchPort / WirelessAccessPoint `.receive_frame` call their node only on the path that returns True -/
 def rejectedMeansNodeNotInvolved : Bool := {"true" if rej else "false"}
 /-- `convert_bytes_to_megabits`: `B * 8.0 / 1024.0 ** 2.0`, i.e. this many bytes per unit of load -/
